@@ -89,7 +89,11 @@ fn color_class(p: [u8; 4], fg: [u8; 4], bg: [u8; 4]) -> u8 {
         let fa = f[3];
         [f[0] + b[0] * (255 - fa) / 255, f[1] + b[1] * (255 - fa) / 255, f[2] + b[2] * (255 - fa) / 255, fa + b[3] * (255 - fa) / 255]
     };
-    if close(pp, over) { 1 } else if close(pp, b) { 0 } else { 2 }
+    // alpha is not subject to premultiplication rounding: where nothing is blended (a light cell; a dark cell over a fully
+    // transparent background) the pixel's alpha must be the configured alpha exactly
+    let dark_alpha_ok = bg[3] != 0 || p[3] == fg[3];
+    let light_alpha_ok = p[3] == bg[3];
+    if close(pp, over) && dark_alpha_ok { 1 } else if close(pp, b) && light_alpha_ok { 0 } else { 2 }
 }
 
 pub fn run_case(a: &[&str]) -> String {
@@ -270,6 +274,10 @@ pub fn run_case(a: &[&str]) -> String {
                 "trailslash" => format!("{}/out_ts_{}.{}/", dir, std::process::id(), a[1]),
                 "relmissing" => format!("no_such_dir_fqh/out.{}", a[1]),
                 // a bare file name (Path::parent() is ""), written in the work directory: must succeed
+                // the file name's extension does not select the format: a PNG written to x.svg / X.SVG, an SVG written to x.png, no extension
+                "otherext" => format!("{}/out_oe_{}_{}.{}", dir, a.get(4).unwrap_or(&"large"), std::process::id(),
+                                      if a[1] == "png" { if a.get(4) == Some(&"small") { "SVG" } else { "svg" } } else { "png" }),
+                "noext" => format!("{}/out_ne_{}_{}_{}", dir, a[1], a.get(4).unwrap_or(&"large"), std::process::id()),
                 // whitespace is part of a file name
                 "trailspace" => format!("{}/out_ts_{}_{}.{} ", dir, a.get(4).unwrap_or(&"large"), std::process::id(), a[1]),
                 "leadspace" => format!("{}/ out_ls_{}_{}.{}", dir, a.get(4).unwrap_or(&"large"), std::process::id(), a[1]),
@@ -309,7 +317,7 @@ pub fn run_case(a: &[&str]) -> String {
             };
             match res {
                 Ok(()) => {
-                    let same = if ["ok", "overwrite", "samelen", "direct", "bare", "trailspace", "leadspace", "trailnl"].contains(&a[2]) { std::fs::read(&path).map(|c| c == expect).unwrap_or(false) } else { false };
+                    let same = if ["ok", "overwrite", "samelen", "direct", "bare", "trailspace", "leadspace", "trailnl", "otherext", "noext"].contains(&a[2]) { std::fs::read(&path).map(|c| c == expect).unwrap_or(false) } else { false };
                     format!("RET_OK same={}", same as u8)
                 }
                 Err(_) => "RET_ERR".to_string(),
